@@ -9,7 +9,7 @@ def _conc(ctx):
 
 
 Unit([("shell", scen.gen_shell, 2), ("sync", scen.gen_sync_read, 2), ("push", scen.gen_push, 2), ("mixed", scen.gen_mixed, 2), ("fail", scen.gen_fail, 1), ("noclose", scen.gen_noclose, 1), ("slow", scen.gen_slow, 2)],
-     (oracles.o_c04, oracles.o_c04_okays, oracles.o_c04_close_answered) + COMMON,
+     (oracles.o_c04, oracles.o_lean_c04, oracles.o_c04_okays, oracles.o_c04_close_answered) + COMMON,
      "all eight stream operations against a simulator that stalls like adbd until it is owed nothing; the ordered host/device packet log of every "
      "connection is run through the per-stream protocol monitor (OPEN shape and freshness, ids on every later packet, one OKAY per delivered WRTE and "
      "none otherwise, stop-and-wait on host WRTEs, CLSE answered/sent once, silence after CLSE). Non-trivial/distinct as for C01.", 160, 4000, extra_run=_conc).export(globals())
